@@ -92,6 +92,14 @@ void Logger::processMessage(QtMsgType type, const QMessageLogContext &context,
 
     LogMessage lmsg(type, context, message);
     process(lmsg);
+
+    // The process is about to be aborted: make sure buffered sinks reach their files
+    if (type == QtFatalMsg) {
+#ifndef QTLOGGER_NO_THREAD
+        if (!ownThreadIsRunning())
+#endif
+            flush();
+    }
 }
 
 QTLOGGER_DECL_SPEC
